@@ -879,20 +879,29 @@ func absComponent(v any) any {
 				vals = append(vals, mustJSON(e))
 			}
 		}
-		return map[string]any{"k": "enum", "t": typeOf(obj), "values": vals}
+		return map[string]any{"k": "enum", "deprecated": asBool(obj["deprecated"]) || asBool(m["deprecated"]), "t": typeOf(obj), "values": vals}
 	}
 	if typeOf(obj) == "object" || obj["properties"] != nil || len(allOf) > 0 {
 		props := []any{}
 		for name, ps := range asMap(obj["properties"]) {
-			props = append(props, map[string]any{"name": name, "schema": absSchema(ps)})
+			// a property that is a bare reference can carry no deprecation of its own ("any"); an inline one says yes or no
+			dep := "no"
+			if pm := asMap(ps); pm != nil {
+				if _, isRef := pm["$ref"]; isRef {
+					dep = "any"
+				} else if asBool(pm["deprecated"]) {
+					dep = "yes"
+				}
+			}
+			props = append(props, map[string]any{"name": name, "schema": absSchema(ps), "dep": dep})
 		}
 		req := []any{}
 		for _, x := range asSlice(obj["required"]) {
 			req = append(req, x)
 		}
-		return map[string]any{"k": "object", "props": props, "required": req, "allOf": allOf}
+		return map[string]any{"k": "object", "deprecated": asBool(obj["deprecated"]) || asBool(m["deprecated"]), "props": props, "required": req, "allOf": allOf}
 	}
-	return map[string]any{"k": "alias", "t": typeOf(obj)}
+	return map[string]any{"k": "alias", "deprecated": asBool(obj["deprecated"]), "t": typeOf(obj)}
 }
 
 func typeOf(m map[string]any) string {
